@@ -181,7 +181,10 @@ fn fence_acq(execution: &mut Execution) {
     for state in execution.objects.iter_mut::<State>() {
         // Iterate all the stores
         for store in state.stores_mut() {
-            if !store.first_seen.is_seen_by_current(&execution.threads) {
+            // Only loads sequenced before the fence in *this* thread count; a
+            // store read by some other thread does not synchronize with the
+            // fence, even if that read happens-before it.
+            if !store.first_seen.is_seen_by_active_thread(&execution.threads) {
                 continue;
             }
 
@@ -874,6 +877,10 @@ impl FirstSeen {
         if self.0[threads.active_id().as_usize()] == u16::max_value() {
             self.0[threads.active_id().as_usize()] = threads.active_atomic_version();
         }
+    }
+
+    fn is_seen_by_active_thread(&self, threads: &thread::Set) -> bool {
+        self.0[threads.active_id().as_usize()] != u16::MAX
     }
 
     fn is_seen_by_current(&self, threads: &thread::Set) -> bool {
